@@ -30,7 +30,8 @@ ASSUMPTIONS = ['a slash mark and both atoms next to it stay in one fragment (con
                'invariant, as the documentation states)']
 MECHANISMS = [('cgsmiles.pysmiles_utils', 'annotate_ez_isomers_cgsmiles'), ('cgsmiles.graph_utils', 'sort_nodes_by_attr'),
               ('cgsmiles.read_fragments', 'strip_bonding_descriptors'), ('cgsmiles.graph_utils', 'merge_graphs')]
-FINDING_FEATURES = {'stereo.cut_double_bond_needs_canonical_written_order': ('cut_db_later_fragment_writes_substituent_first', 'db_cut_under_reordered_insertion')}
+FINDING_FEATURES = {'stereo.cut_double_bond_needs_canonical_written_order': ('cut_db_later_fragment_writes_substituent_first', 'db_cut_under_reordered_insertion'),
+                    'stereo.shared_marked_substituent_class_depends_on_listing': 'marked_substituent_shared_between_fragments'}
 SIZES = {'quick': 2500, 'thorough': 60000}
 
 
@@ -147,6 +148,36 @@ def make_case(rng):
         desc.setdefault(b, []).append((kb, lab, o))
         key = frozenset((part[a], part[b]))
         cutcount[key] = cutcount.get(key, 0) + 1
+    # a cut next to a marked substituent may also be written with the shared-atom operator: the substituent atom is part
+    # of both fragments ([!x] on either copy), its slash mark stays with the copy that sits next to the double bond
+    gr, origin = g, {}
+    if rng.random() < 0.3:
+        gr = g.copy()
+        for s_ in stereo:
+            for l_, a_ in (('l1', 'a1'), ('l2', 'a2')):
+                lig, anc = s_[l_], s_[a_]
+                if part[lig] != part[anc] or lig in chiral or lig in origin.values() or gr.nodes[lig]['charge'] != 0 or rng.random() < 0.4:
+                    continue
+                for p_ in list(g[lig]):
+                    e = frozenset((p_, lig))
+                    if e not in cut_edges or g.edges[p_, lig]['order'] != 1 or p_ in chiral or part[p_] == part[lig]:
+                        continue
+                    mine = [x for x in desc.get(p_, []) if any(x[1] == y[1] for y in desc.get(lig, []))]
+                    if len(mine) != 1:
+                        continue
+                    lab = mine[0][1]
+                    c_ = max(gr.nodes) + 1
+                    gr.add_node(c_, **dict(g.nodes[lig]))
+                    gr.add_edge(p_, c_, order=1)
+                    part[c_] = part[p_]
+                    comps[part[p_]] = set(comps[part[p_]]) | {c_}
+                    origin[c_] = lig
+                    desc[p_] = [x for x in desc[p_] if x[1] != lab]
+                    if not desc[p_]:
+                        del desc[p_]
+                    desc[c_] = [('!', lab, 1)]
+                    desc[lig] = [('!', lab, 1) if x[1] == lab else x for x in desc[lig]]
+                    break
     # render fragments, then write slashes from the geometry and the written order
     bracket_p = rng.choice([0.0, 0.0, 0.4])      # bracket atoms ([CH3], [CH]) also directly behind a slash
     frags, frag_atoms = {}, {}
@@ -154,7 +185,7 @@ def make_case(rng):
     order_index = {}
     for i, comp in enumerate(comps):
         for _try in range(30):
-            r = M.render_fragment(rng, g, sorted(comp), desc, opts={'explicit_single': 0.0, 'leading': rng.random() < 0.3, 'bracket_p': bracket_p, 'desc_in_parens': rng.choice([0.0, 0.3]), 'desc_after_branch': rng.choice([0.0, 0.5])})
+            r = M.render_fragment(rng, gr, sorted(comp), desc, opts={'explicit_single': 0.0, 'leading': rng.random() < 0.3, 'bracket_p': bracket_p, 'desc_in_parens': rng.choice([0.0, 0.3]), 'desc_after_branch': rng.choice([0.0, 0.5])})
             if not cyclic or not (marked_pair_is_ring_closure(r, slash_pairs) or later_anchor_after_its_substituent(r, stereo)):
                 break
         else:
@@ -165,8 +196,8 @@ def make_case(rng):
     slashes = S.slash_tokens(stereo, order_index, rng)
     for i, r in renders.items():
         idx = {n: k for k, n in enumerate(r['atoms'])}
-        frags['F%d' % i] = finish_text(r['tokens'], idx, slashes, chiral, g)
-        frag_atoms['F%d' % i] = r['atoms']
+        frags['F%d' % i] = finish_text(r['tokens'], idx, slashes, chiral, gr)
+        frag_atoms['F%d' % i] = [origin.get(n, n) for n in r['atoms']]       # a shared copy stands for the atom it copies
     # uncut reference
     for _try in range(30):
         r0 = M.render_fragment(rng, g, sorted(g.nodes), {}, opts={'explicit_single': 0.0, 'bracket_p': bracket_p})
@@ -206,6 +237,8 @@ def make_case(rng):
         feats.add('eleven_or_more_fragments')
     if cyclic:
         feats.add('stereo_double_bond_in_ring')
+    if origin:
+        feats.add('marked_substituent_shared_between_fragments')
     if bracket_p:
         feats.add('bracket_atoms')
     items = list(frags.items())
@@ -215,7 +248,8 @@ def make_case(rng):
                 perms=[list(p) for p in perms], frag_atoms=frag_atoms, single='{[#M]}.{#M=%s}' % single, single_atoms=r0['atoms'],
                 expect_ez=sorted(expect_ez), expect_chiral=sorted(chiral.items()), features=sorted(feats),
                 stereo=stereo, part={str(k): v for k, v in part.items()}, ndb=len(stereo), nfrag=len(comps), ncuts=len(cut_edges),
-                order_index={str(k): v for k, v in order_index.items()})
+                order_index={str(k): v for k, v in order_index.items()},
+                shared=[dict(clone=c_, lig=l_, clone_part=part[c_], lig_part=part[l_]) for c_, l_ in origin.items()])
 
 
 CAPS = ['[$]=C/F', '[$]=C\\F', 'F/C=[$]', 'F\\C=[$]', '[$]=C(C)/Cl', 'C(\\F)=[$]', 'C(/Cl)(C)=[$]', '[$]=C(/C)CC', 'CC(/F)=[$]']
@@ -322,8 +356,10 @@ def translate(aa, frag_atoms):
     out = {}
     for n, d in aa.nodes(data=True):
         m = d.get('mapping') or []
-        if len(m) == 1 and m[0][0] in frag_atoms and isinstance(m[0][1], int) and m[0][1] < len(frag_atoms[m[0][0]]):
-            out[n] = frag_atoms[m[0][0]][m[0][1]]
+        if m and all(e[0] in frag_atoms and isinstance(e[1], int) and e[1] < len(frag_atoms[e[0]]) for e in m):
+            atoms = {frag_atoms[e[0]][e[1]] for e in m}
+            if len(atoms) == 1:         # one entry, or the copies of one shared atom
+                out[n] = next(iter(atoms))
     return out
 
 
@@ -449,7 +485,10 @@ def run(case):
             continue
         ez, ch = observed(aa, translate(aa, case['frag_atoms']))
         if ez != want_ez:
-            viol.append(V('c15.cut_ez', f'{txt} ({how}): stereo references {sorted(ez, key=str)}, but the generator geometry / uncut molecule has {sorted(want_ez)}'))
+            # same atoms with another class (cis <-> trans) is one thing, a relation that is missing, surplus or names
+            # other atoms is another
+            same_refs = {t[:4] for t in ez} == {t[:4] for t in want_ez}
+            viol.append(V('c15.cut_ez' if same_refs else 'c15.cut_ez_references', f'{txt} ({how}): stereo references {sorted(ez, key=str)}, but the generator geometry / uncut molecule has {sorted(want_ez)}'))
         if ch != want_ch:
             viol.append(V('c15.cut_chiral', f'{txt} ({how}): chirality labels {sorted(ch, key=str)}, written {sorted(want_ch)}'))
     # the same base graph (same keys) with its nodes inserted in another order: nothing may change
@@ -473,7 +512,8 @@ def run(case):
             cg2, aa2 = MoleculeResolver.from_graph(case['frag_string'], b2).resolve()
             res[tag_] = observed(aa2, translate(aa2, case['frag_atoms']))
         if res['key order'] != res['shuffled insertion']:
-            viol.append(V('c15.insertion_order_dependent', f'{txt}: stereo annotations differ when the same base graph (same keys) lists its nodes in another order: '
+            same_refs = {t[:4] for t in res['key order'][0]} == {t[:4] for t in res['shuffled insertion'][0]} and res['key order'][1] == res['shuffled insertion'][1]
+            viol.append(V('c15.insertion_order_dependent' if same_refs else 'c15.insertion_order_changes_references', f'{txt}: stereo annotations differ when the same base graph (same keys) lists its nodes in another order: '
                           f'{sorted(res["key order"][0], key=str)} vs {sorted(res["shuffled insertion"][0], key=str)}'))
     except Exception as err:
         viol.append(V('c15.cut_exception.' + type(err).__name__, f'{txt} (from_graph, reordered): raised {type(err).__name__}: {err}'))
